@@ -379,21 +379,47 @@ def step_kernels(chk, rule="C04.S"):
 
     def is_seq(ty):
         return ty["k"] == "ref" and not ty["mut"] and ty["t"]["k"] == "slice" and ty["t"]["t"].get("w") == 8
-    walks = [b for b in facts.lib_bodies() if b.get("sig") and any(is_tab(t_) for t_ in b["sig"]["inputs"]) and any(is_seq(t_) for t_ in b["sig"]["inputs"])]
-    kernels = {}
-    for wb in walks:
+    # every local body reachable from the public canonization methods (calls, closures, function items)
+    todo = []
+    for kind in ("dyn", "static"):
+        for nm in ("p_canonization", "n_canonization", "npn_canonization"):
+            b0 = env.kinds[kind].methods.get(nm)
+            if b0 is not None:
+                todo.append(b0)
+    seen, kernels = set(), {}
+    by_key = {b["key"]: b for b in facts.lib_bodies()}
+    while todo:
+        wb = todo.pop()
+        if wb["key"] in seen:
+            continue
+        seen.add(wb["key"])
+        ins = (wb.get("sig") or {}).get("inputs") or []
+        if len(ins) == 3 and ins[0]["k"] == "uint" and is_tab(ins[1]) and ins[2]["k"] == "uint" and wb["sig"]["output"]["s"] == "()":
+            kernels[wb["key"]] = wb
+            continue   # a step kernel: what it calls is its own business (checked by running it)
+        refs = set()
+
+        def scan(x):
+            if isinstance(x, dict):
+                if x.get("key") in by_key:
+                    refs.add(x["key"])
+                for v_ in x.values():
+                    scan(v_)
+            elif isinstance(x, list):
+                for v_ in x:
+                    scan(v_)
         for blk in wb["mir"]["blocks"]:
-            t = blk["term"]
-            if t["k"] != "call":
-                continue
-            key = ((t.get("func") or {}).get("resolved") or {}).get("key") or (t.get("func") or {}).get("key")
-            cb = facts.body(key) if key else None
-            if cb is None or not cb.get("sig"):
-                continue
-            ins = cb["sig"]["inputs"]
-            if len(ins) == 3 and ins[0]["k"] == "uint" and is_tab(ins[1]) and ins[2]["k"] == "uint" and cb["sig"]["output"]["s"] == "()":
-                kernels[cb["key"]] = cb
-    chk.floor(rule + " step kernels called by the walks", len(kernels), 2)
+            scan(blk["term"].get("func"))
+            scan(blk["term"].get("args"))
+            for st_ in blk["stmts"]:
+                if st_["k"] == "assign":
+                    scan(st_["rv"])
+        for k_ in refs:
+            todo.append(by_key[k_])
+    if len(kernels) < 2:
+        chk.undecided(rule, "step kernels of the canonization walks", "%d function(s) of shape (num_vars, &mut [u64], index) reachable from the walks: the steps are not taken through such kernels" % len(kernels))
+        return
+    chk.notes["step_kernels"] = sorted(b_["path"] for b_ in kernels.values())
 
     def run_kernel(cb, n, i):
         it = env.interp()
